@@ -77,6 +77,19 @@ def labels_body_factory(ctx):
     from thejoker.data_helpers import validate_prepare_data
 
     def body(case):
+        check_one(case)
+        # the same merged epochs, split differently between the first two surveys (a second star observed on the same
+        # nights): nothing remembered from the first data set may be re-used for it
+        sv = case["surveys"]
+        if len(sv) >= 2 and case["cross"] not in ("copy",) and len(sv[0]["t"]) >= 1 and len(sv[1]["t"]) >= 1 \
+                and sv[0]["t"][-1] != sv[1]["t"][0]:
+            import copy as _copy
+            case2 = _copy.deepcopy(case)
+            a, b = case2["surveys"][0]["t"], case2["surveys"][1]["t"]
+            a[-1], b[0] = b[0], a[-1]
+            check_one(case2)
+
+    def check_one(case):
         sv = case["surveys"]
         ns = len(sv)
         data = gens.build_data(case)
